@@ -10,6 +10,18 @@ CLAIMED = {
  'C15': dict(text='Checksum model proved to be the 8-bit Fletcher sum of every byte list, range and matches() characterised, every state reachable by a 2-byte prefix; step function of the real object compared with the model on sampled (quick) or all 2^24 (thorough) state/byte pairs',
              note='hand model of checksum.py tied by correspondence (exhaustive over the step function in the thorough tier)',
              tech='Coq proof by induction on the byte list + exhaustive step-function correspondence', ref='4 C15'),
+ 'C02': dict(text='UbxParser model proved complete for every stream of the segment grammar (frames <= 1000 bytes with arbitrary content, checksum-corrupted frames, over-length headers, sync-pair-free filler, lone B5 before a frame), any filter, any start queue/counter, any chunking: queue = expected, counter = number of well-formed frames (Coq, induction over segments and payload); model tied to parser_ubx.py by correspondence on generated grammar streams under 4 chunkings plus an independent expected() oracle',
+             note='hand model of the 9-state machine tied by differential testing; filler must not contain B5 62 (the property\'s own proviso); no two filler segments adjacent',
+             tech='Coq proof (induction on segment list, DATA-phase induction) + correspondence via extracted OCaml', ref='4 C02'),
+ 'C03': dict(text='for every byte list and filter the model queue is exactly the emission of a left-to-right decomposition of the stream into gaps and non-overlapping frame-shaped occurrences (one packet per valid in-filter occurrence, one marker per checksum failure), counter = valid occurrences; over-length header transparency and one-marker lemmas (Coq, per-byte invariant); implementation compared with the model on adversarial streams and checked by an independent greedy occurrence matcher',
+             note='bytes < 256 assumed (Python bytes); hand model tied by differential testing',
+             tech='Coq proof (invariant over fold_left step) + correspondence + independent soundness oracle', ref='4 C03'),
+ 'C09': dict(text='process (process p a) b = process p (a ++ b) and the n-chunk generalisation for both parsers; after restart() from ANY parser state every further schedule of API calls behaves as on a new parser keeping queue and counter (simulation relation), NMEA likewise (Coq); implementation: all chunkings give identical results and restart at every offset equals prefix + fresh parser (implementation-only differential) and the model',
+             note='hand models of both parsers tied by differential testing', tech='Coq proof (fold_left_app, simulation relation) + chunking/restart differential', ref='4 C09'),
+ 'C11': dict(text='at the last byte of a valid frame: counted always, queued iff in the filter then in force; counter independent of filter calls; FIFO/sentinel/purge; parsing only appends, filter changes and restart keep the queue, without pops the old queue stays a prefix (Coq); schedules of all API calls compared with the model while every payload object ever queued or handed out is held and re-read (immutability); UbxCID eq/hash sweep',
+             note='the model holds payloads by value, so object aliasing (buffer reuse) is detected by the held-reference test in the correspondence, not by the theorem', tech='Coq proof (step lemmas, induction over schedules) + correspondence with held references', ref='4 C11'),
+ 'C16': dict(text='frames_rx of the model = count_sentences for every byte list, from any idle state and under every chunking; the spec predicate is characterised against the property text (Coq, continuation invariant); NmeaParser compared with model, extracted spec and an independent Python transcription, exhaustively over all strings of length <= 3 (quick) / 4 (thorough) over 7 byte classes around valid sentences',
+             note='hand model of the 5-state machine tied by differential testing', tech='Coq proof (generalised counting invariant) + exhaustive small-string correspondence', ref='4 C16'),
 }
 PENDING_REASON = 'check under construction in this round; not yet claimed'
 def main():
